@@ -33,6 +33,7 @@ type Profile struct {
 	Outcomes           []string // release outcomes
 	AllowPush          bool
 	PHandlerPush       int // probability (out of 100) that a parking handler first makes a callback (push-enabled servers)
+	PSendFault         int // probability (out of 100) that the channel refuses one of the server's first Sends
 	PPush              int // weight of Callback steps issued from outside on a push-enabled server (out of 100 steps)
 	Pins               bool
 	Chans              []string
@@ -179,6 +180,10 @@ func ServerScenario(t *rapid.T, p Profile) sim.Scenario {
 	sc.Cfg.Yield = pick(t, "yield", []int{0, 0, 1, 3})
 	if p.PBaseDeadline > 0 && rapid.IntRange(0, 99).Draw(t, "basedl") < p.PBaseDeadline {
 		sc.Cfg.BaseDeadlineMs = 50
+	}
+	if p.PSendFault > 0 && rapid.IntRange(0, 99).Draw(t, "sendfault") < p.PSendFault {
+		// a transient failure: the Send returns an error, the connection stays up
+		sc.Cfg.Faults = append(sc.Cfg.Faults, sim.Fault{Op: "send", At: rapid.IntRange(1, 6).Draw(t, "faultat"), Kind: "err"})
 	}
 	st := &State{IDOf: map[int]string{}, window: map[string]bool{}, push: sc.Cfg.AllowPush}
 	n := rapid.IntRange(p.MinSteps, p.MaxSteps).Draw(t, "nsteps")
